@@ -11,8 +11,19 @@ namespace etl {
 /// multiplying two exact rational fractions represented by the ratio
 /// specializations R1 and R2.
 /// \ingroup ratio
+namespace detail {
+// cross-reduce first: the product of two representable ratios with a representable
+// result must not overflow
 template <typename R1, typename R2>
-using ratio_multiply = ratio<R1::num * R2::num, R1::den * R2::den>;
+struct ratio_multiply_impl {
+    static constexpr intmax_t gcd1 = gcd(abs(R1::num), R2::den);
+    static constexpr intmax_t gcd2 = gcd(abs(R2::num), R1::den);
+    using type = typename ratio<(R1::num / gcd1) * (R2::num / gcd2), (R1::den / gcd2) * (R2::den / gcd1)>::type;
+};
+} // namespace detail
+
+template <typename R1, typename R2>
+using ratio_multiply = typename detail::ratio_multiply_impl<R1, R2>::type;
 
 } // namespace etl
 
